@@ -23,8 +23,8 @@ func VH_C12_Pairs() {
 	conf := vhConf(st)
 	conf.Storage.GC.GracePeriod = time.Minute
 	conf.Storage.GC.RepoUploadMax = 1
-	pair := vh.Choice("pair", 7)
-	names := []string{"write-vs-expiry-timer", "write-vs-count-eviction", "complete-vs-expiry-timer", "cancel-vs-expiry-timer", "request-vs-collection", "close-vs-request", "close-vs-collection-tick"}
+	pair := vh.Choice("pair", 9)
+	names := []string{"write-vs-expiry-timer", "write-vs-count-eviction", "complete-vs-expiry-timer", "cancel-vs-expiry-timer", "request-vs-collection", "close-vs-request", "close-vs-collection-tick", "mount-vs-collection", "mount-vs-close"}
 	vh.Tag("pair", names[pair])
 	if pair >= 4 {
 		conf.Storage.GC.Frequency = time.Second
@@ -89,6 +89,25 @@ func VH_C12_Pairs() {
 			for _, t := range vclock.Tickers() {
 				t.Tick()
 			}
+		})
+		vh.Go(func() { _ = s.Close() })
+	case 7:
+		// a cross-repository mount (two repositories opened by one request; here the
+		// source is the target itself and the blob is absent) while the collection runs
+		vh.Preempt(switches)
+		vh.Go(func() {
+			vhDo(s, "POST", "/v2/a/blobs/uploads/", vhQ("mount", digest.Canonical.FromBytes([]byte("absent")).String(), "from", "a"), nil, nil)
+		})
+		vh.Go(func() {
+			for _, t := range vclock.Tickers() {
+				t.Tick()
+			}
+		})
+	case 8:
+		// a mount from another repository while the server shuts down
+		vh.Preempt(switches)
+		vh.Go(func() {
+			vhDo(s, "POST", "/v2/b/blobs/uploads/", vhQ("mount", digest.Canonical.FromBytes([]byte("{}")).String(), "from", "a"), nil, nil)
 		})
 		vh.Go(func() { _ = s.Close() })
 	}
